@@ -51,6 +51,24 @@ def gen(rng, tier):
         yield case
     for case in gen_extra(rng, tier):
         yield case
+    for _ in range(8 if tier == 'quick' else 100):
+        # lag times handed over as a narrow signed integer array, tmax beyond that type's range
+        k = rng.randint(2, 4)
+        labs, akind = G.alphabet(rng, k=k)
+        trajs = [G.traj(rng, labs, rng.randint(400, 700), sticky=0.8) + labs]
+        lt = rng.choice(['int8', 'int8', 'int16'])
+        lags = rng.sample([1, 2, 3, 9, 50, 100], rng.randint(1, 2))
+        tmax = rng.choice([127, 128, 200, 300]) if lt == 'int8' else 40000
+        if lt == 'int16':
+            lags = [rng.choice([5000, 9000, 20000])]
+            trajs = [G.traj(rng, labs, rng.randint(21000, 24000), sticky=0.8) + labs]
+        yield {'trajs': trajs, 'lags': lags, 'tmax': tmax, 'lumped': False, 'alpha': akind, 'mal': None, 'style': 'typed-lags', 'lagtype': lt}
+    for _ in range(1 if tier == 'quick' else 6):
+        # slowly interconverting states: entries of the Wielandt power between 1e-8 and 1e-6
+        labs = rng.sample([0, 1, 2, 4, 7], 3)
+        dwell = rng.choice([8000, 10000, 12000])
+        rle = [[[labs[i % 3], dwell + rng.randint(0, 50)] for i in range(7)]]
+        yield {'trajs': None, 'rle': rle, 'lags': [1], 'tmax': 3, 'lumped': False, 'alpha': 'slow', 'mal': None, 'style': 'slow'}
 
 
 def _girth3(rng):
@@ -84,10 +102,11 @@ def corpus():
 def impl(case):
     import numpy as np
     import msmhelper as mh
-    trajs = [np.array(t) for t in case['trajs']]
+    trajs = [np.array(t) for t in G.expand(case)]
     data = mh.LumpedStateTraj([np.array(t) for t in case['macro']], trajs) if case['lumped'] else trajs
-    r = mh.msm.ck_test(data, case['lags'], case['tmax'])
-    r2 = mh.msm.chapman_kolmogorov_test(data, case['lags'], case['tmax'])
+    lags = np.array(case['lags'], dtype=case['lagtype']) if case.get('lagtype') else case['lags']
+    r = mh.msm.ck_test(data, lags, case['tmax'])
+    r2 = mh.msm.chapman_kolmogorov_test(data, lags, case['tmax'])
     out = {}
     for k, d in r.items():
         out[str(k)] = {'time': [int(t) if float(t).is_integer() else float(t) for t in d['time']],
@@ -106,7 +125,7 @@ def impl(case):
                 c[...] = -1.0
         except Exception:  # noqa
             pass
-    r3 = mh.msm.ck_test(data, case['lags'], case['tmax'])
+    r3 = mh.msm.ck_test(data, lags, case['tmax'])
     return {'ok': out, 'alias_keys': sorted(map(str, r2.keys())) == sorted(map(str, r.keys())),
             'fresh': snap(r3) == before and snap(r2) == before}
 
@@ -150,9 +169,9 @@ def judge(case, ibc, answers):
         reqs = []
         for lag in lags:
             if case['lumped']:
-                reqs.append([902] + C.enested(case['macro']) + C.enested(case['trajs']) + [lag, case['tmax']] + C.eZs(refs))
+                reqs.append([902] + C.enested(case['macro']) + C.enested(G.expand(case)) + [lag, case['tmax']] + C.eZs(refs))
             else:
-                reqs.append([901] + C.enested(case['trajs']) + [lag, case['tmax']] + C.eZs(refs))
+                reqs.append([901] + C.enested(G.expand(case)) + [lag, case['tmax']] + C.eZs(refs))
         ans = C.mrun(reqs)
         refdone = False
         if res is None and case['lumped']:
